@@ -509,8 +509,88 @@ fn strategy(_: &Ctx) -> BoxedStrategy<Case> {
         .boxed()
 }
 
+// --- a 32-bit string table whose names reach across the 4 GiB mark -----------------------
+
+fn names_4g() -> Result<(), String> {
+    let mut pages = vec![0u8; 8192];
+    pages[1..5].copy_from_slice(b".low");
+    pages[0x1010..0x1019].copy_from_slice(b".beyond4g");
+    let Some(mut map) = mb2_sandbox::FixedMap::new(0xFFFF_F000, 8192) else {
+        return Err("INCONCLUSIVE: the pages around 4 GiB could not be mapped".into());
+    };
+    map.put(&pages);
+    let r = mb2_sandbox::run_child(|| {
+        let mut out = String::new();
+        for es in [40usize, 64] {
+            let mut body = vec![0u8; 12 + 2 * es];
+            put32(&mut body, 0, 2);
+            put32(&mut body, 4, es as u32);
+            put32(&mut body, 8, 0);
+            for (e, (ty, name)) in [(3u32, 1u32), (1, 0x1010)].into_iter().enumerate() {
+                let at = 12 + e * es;
+                put32(&mut body, at, name);
+                put32(&mut body, at + 4, ty);
+                if es == 40 {
+                    put32(&mut body, at + 12, 0xFFFF_F000);
+                } else {
+                    put64(&mut body, at + 16, 0xFFFF_F000);
+                }
+            }
+            let mut img = mb2_model::encode::tag(9, &body);
+            mb2_model::encode::pad8(&mut img, 0);
+            let a = Aligned::new(&img);
+            let got = mb2_model::panics::catch(|| {
+                let g = multiboot2_common::DynSizedStructure::<multiboot2::TagHeader>::ref_from_slice(a.as_slice()).unwrap();
+                g.cast::<multiboot2::ElfSectionsTag>().sections().map(|s| s.name().map(|n| n.to_string()).unwrap_or_else(|_| "<utf8>".into())).collect::<Vec<_>>()
+            });
+            out.push_str(&format!("{es}:{got:?};"));
+        }
+        out.into_bytes()
+    });
+    drop(map);
+    match r {
+        mb2_sandbox::ChildResult::Done(b) => {
+            let t = String::from_utf8_lossy(&b).into_owned();
+            let want = r#"40:Some([".low", ".beyond4g"]);64:Some([".low", ".beyond4g"]);"#;
+            if t == want {
+                Ok(())
+            } else {
+                Err(format!("string table at 0xfffff000, name offsets 1 and 0x1010 (the second name lies behind the 4 GiB mark): got {t}, expected {want}"))
+            }
+        }
+        mb2_sandbox::ChildResult::Signal(sig) => Err(format!("string table at 0xfffff000 with a name behind the 4 GiB mark: resolving the names crashed the process (signal {sig})")),
+        _ => Err("INCONCLUSIVE: child did not report".into()),
+    }
+}
+
+fn run_4g(ctx: &Ctx, rep: &mut SubReport) {
+    if ctx.worker != 0 {
+        return;
+    }
+    match names_4g() {
+        Ok(()) => {
+            rep.evaluations += 2;
+            rep.nontrivial.insert(0x1_0000_0010);
+            rep.samples.push(json!({"string_table": "0xfffff000", "name_offset": "0x1010", "expect": ".beyond4g"}));
+        }
+        Err(m) if m.starts_with("INCONCLUSIVE") => rep.notes.push(m),
+        Err(m) => rep.violations.push(Violation { sub: "names-across-4gib".into(), profile: profile_name().into(), message: m, case: json!({})}),
+    }
+}
+
+fn replay_4g(_: &serde_json::Value) -> Result<(), String> {
+    names_4g()
+}
+
 pub fn subs() -> Vec<Box<dyn Sub>> {
     vec![
+    Box::new(LoopSub {
+        name: "names-across-4gib",
+        profiles: Profiles::Both,
+        rule: "an ELF32 and an ELF64 table whose string table sits in the last page below 4 GiB (mapped for this purpose together with the page behind it) and one of whose names starts behind the 4 GiB mark: both names resolve through the designated string-table entry (in a forked child). Non-trivial = both layouts",
+        run: run_4g,
+        replay: replay_4g,
+    }),
     Box::new(PropSub::<SeqCase> {
         name: "elf-sequences",
         rule: "2..=4 ELF-sections tags written one after the other to the same address and examined in one process (ordinary heap memory): a base case and variations of it (the same count / entry size / index with a table shortened by whole entries or a few bytes, a longer table, another count, another index) or unrelated cases. Oracle: each tag is treated exactly as by the single-tag rule, whatever was examined at that address before. Enumerated: full table followed by its truncated twin and vice versa, n 1..=4 x both entry sizes x 3 cuts; and tables that really hold 65535, 65536 and 65539 entries (2.6 - 4 MB). Non-trivial = a sequence with an accepted and a rejected tag; distinct by the sequence",
